@@ -18,8 +18,9 @@ def main():
     hooks_commit = subprocess.run(["git", "-C", "/repo", "log", "--format=%H", "--grep=verif hooks"],
                                   stdout=subprocess.PIPE, text=True).stdout.split()
     checks, na, engines = [], [], {}
+    ready = set(open(os.path.join(HERE, "props", "READY")).read().split())
     for pid in ALL:
-        if not os.path.exists(os.path.join(HERE, "props", pid + ".py")):
+        if pid not in ready or not os.path.exists(os.path.join(HERE, "props", pid + ".py")):
             na.append({"property_id": pid, "reason": NOT_BUILT})
             continue
         m = importlib.import_module("props." + pid)
